@@ -361,6 +361,7 @@ Tokenizer_emit_all(Tokenizer *self, PyObject *tokenlist)
             }
             right = PyObject_GetAttrString(token, "text");
             if (!right) {
+                Py_DECREF(left);
                 return -1;
             }
             text = PyUnicode_Concat(left, right);
@@ -405,19 +406,20 @@ Tokenizer_emit_text_then_stack(Tokenizer *self, const char *text)
 {
     PyObject *stack = Tokenizer_pop(self);
 
+    if (!stack) {
+        return -1;
+    }
     if (Tokenizer_emit_text(self, text)) {
         Py_DECREF(stack);
         return -1;
     }
-    if (stack) {
-        if (PyList_GET_SIZE(stack) > 0) {
-            if (Tokenizer_emit_all(self, stack)) {
-                Py_DECREF(stack);
-                return -1;
-            }
+    if (PyList_GET_SIZE(stack) > 0) {
+        if (Tokenizer_emit_all(self, stack)) {
+            Py_DECREF(stack);
+            return -1;
         }
-        Py_DECREF(stack);
     }
+    Py_DECREF(stack);
     self->head--;
     return 0;
 }
